@@ -1,15 +1,9 @@
 #!/bin/bash
 # tools/seed_refresh.sh [name...] — re-validates the seeded changes filed under /verif/seeded against /repo's HEAD
-# (patches that no longer apply are listed: they have to be rebased by hand), 3 at a time
+# with the property's own quick check, 3 at a time (patches that no longer apply are listed: they have to be
+# rebased by hand); afterwards run tools/seed_table.py to rewrite the table in DESIGN.md
 cd /verif
 names=${@:-$(ls seeded)}
 for n in $names; do
-  if ! git -C /repo apply --check /verif/seeded/$n/patch.diff 2>/dev/null; then echo "DOES-NOT-APPLY $n"; continue; fi
-  echo $n
-done | grep -v DOES-NOT-APPLY | xargs -P 3 -I{} bash -c 'pid=$(echo {} | cut -d- -f1); /verif/tools/seed_validate.py /verif/seeded/{} {} $pid > /verif/work/sv-{}.txt 2>&1; /venv/bin/python - /verif/work/sv-{}.txt {} <<P
-import json,sys
-try: d=json.load(open(sys.argv[1]))
-except Exception: print(sys.argv[2],"UNPARSABLE"); sys.exit()
-print(sys.argv[2],"valid=",d.get("valid")," ".join(f"{p}:{c[\"caught\"]}" for p,c in d.get("checks",{}).items()))
-P'
-for n in $names; do git -C /repo apply --check /verif/seeded/$n/patch.diff 2>/dev/null || echo "DOES-NOT-APPLY $n"; done
+  if git -C /repo apply --check /verif/seeded/$n/patch.diff 2>/dev/null; then echo $n; else echo "DOES-NOT-APPLY $n" >&2; fi
+done | xargs -P 3 -I{} bash -c 'pid=$(echo {} | cut -d- -f1); /verif/tools/seed_validate.py /verif/seeded/{} {} $pid > /verif/work/sv-{}.txt 2>&1; echo "{} $(grep -o "\"caught\": [a-z]*" /verif/work/sv-{}.txt | head -1) $(grep -o "\"valid\": [a-z]*" /verif/work/sv-{}.txt)"'
